@@ -1,7 +1,856 @@
-//! C10 — not built yet.
-use vcore::Ctx;
+//! C10 — depth, complexity, recursion and directive limits are enforced exactly.
+//!
+//! For every generated valid document the four reference measures (vgql::measures, written from the statement) are
+//! computed; the schema is then rebuilt with one limit at measure-1, measure and measure+1, and the request must
+//! be rejected before any resolver runs exactly when measure > limit.
+use crate::execcmp::*;
+use async_graphql::{Response, Variables};
+use indexmap::IndexMap;
+use std::sync::atomic::{AtomicUsize, Ordering};
+use std::sync::Arc;
+use vcore::{Case, Ctx, Src};
+use vgql::ast::*;
+use vgql::coerce::{coerce_variables, CV};
+use vgql::gensch::*;
+use vgql::gentyped::*;
+use vgql::measures::*;
+use vgql::print::print_plain;
+use vgql::sch::Sch;
+use vgql::world::*;
+use vschemas::dynbuild::build_dynamic;
+use vschemas::rt::Rt;
+use vschemas::z::{build_z, z_sch};
 
-pub fn run(_ctx: &mut Ctx) {
-    eprintln!("C10: check not built yet");
-    std::process::exit(2);
+/// Derive-built schema K: fields with `#[graphql(complexity = ...)]` rules over arguments and `child_complexity`.
+/// Fields of the interface `Node` (id, label) carry no rule on any implementing type, so which rule applies to a
+/// field selected on the interface is never in question.
+pub mod k {
+    use super::*;
+    use async_graphql::*;
+
+    pub struct Calls(pub Arc<AtomicUsize>);
+    fn hit(ctx: &Context<'_>) {
+        if let Ok(c) = ctx.data::<Calls>() {
+            c.0.fetch_add(1, Ordering::Relaxed);
+        }
+    }
+
+    #[derive(Enum, Copy, Clone, Eq, PartialEq)]
+    pub enum Size {
+        Small,
+        Medium,
+        Large,
+    }
+
+    pub struct Shop(pub i32);
+    pub struct Item(pub i32);
+
+    #[derive(Interface)]
+    #[graphql(field(name = "id", ty = "i32"), field(name = "label", ty = "Option<String>"))]
+    pub enum Node {
+        Shop(Shop),
+        Item(Item),
+    }
+
+    #[derive(Union)]
+    pub enum Thing {
+        Shop(Shop),
+        Item(Item),
+    }
+
+    #[Object]
+    impl Shop {
+        async fn id(&self, ctx: &Context<'_>) -> i32 {
+            hit(ctx);
+            self.0
+        }
+        async fn label(&self, ctx: &Context<'_>) -> Option<String> {
+            hit(ctx);
+            Some(format!("shop{}", self.0))
+        }
+        #[graphql(complexity = "first.clamp(0, 9) as usize * child_complexity + 1")]
+        async fn items(&self, ctx: &Context<'_>, #[graphql(default = 2)] first: i32) -> Vec<Item> {
+            hit(ctx);
+            let _ = first;
+            vec![Item(1)]
+        }
+        async fn owner(&self, ctx: &Context<'_>) -> Option<Shop> {
+            hit(ctx);
+            Some(Shop(self.0 + 1))
+        }
+        #[graphql(complexity = 3)]
+        async fn cost(&self, ctx: &Context<'_>) -> i32 {
+            hit(ctx);
+            3
+        }
+        #[graphql(complexity = "if on { 5 } else { 1 }")]
+        async fn flag(&self, ctx: &Context<'_>, #[graphql(default = false)] on: bool) -> i32 {
+            hit(ctx);
+            on as i32
+        }
+        async fn thing(&self, ctx: &Context<'_>) -> Thing {
+            hit(ctx);
+            Thing::Item(Item(2))
+        }
+        async fn node(&self, ctx: &Context<'_>) -> Option<Node> {
+            hit(ctx);
+            Some(Node::Item(Item(3)))
+        }
+    }
+
+    #[Object]
+    impl Item {
+        async fn id(&self, ctx: &Context<'_>) -> i32 {
+            hit(ctx);
+            self.0
+        }
+        async fn label(&self, ctx: &Context<'_>) -> Option<String> {
+            hit(ctx);
+            None
+        }
+        #[graphql(complexity = "match size { Size::Small => 1, Size::Medium => 2, Size::Large => 4 }")]
+        async fn price(&self, ctx: &Context<'_>, #[graphql(default_with = "Size::Small")] size: Size) -> f64 {
+            hit(ctx);
+            let _ = size;
+            1.5
+        }
+        #[graphql(complexity = "(first.clamp(0, 9) as usize + 1) * child_complexity")]
+        async fn parts(&self, ctx: &Context<'_>, #[graphql(default = 1)] first: i32) -> Vec<Item> {
+            hit(ctx);
+            let _ = first;
+            vec![Item(self.0 + 1)]
+        }
+        async fn shop(&self, ctx: &Context<'_>) -> Option<Shop> {
+            hit(ctx);
+            Some(Shop(7))
+        }
+        #[graphql(complexity = 2)]
+        async fn weight(&self, ctx: &Context<'_>) -> i32 {
+            hit(ctx);
+            2
+        }
+        /// the field itself is free, its selection is not
+        #[graphql(complexity = "child_complexity")]
+        async fn twin(&self, ctx: &Context<'_>) -> Item {
+            hit(ctx);
+            Item(self.0)
+        }
+    }
+
+    pub struct Query;
+    #[Object]
+    impl Query {
+        async fn shop(&self, ctx: &Context<'_>, #[graphql(default = 1)] id: i32) -> Option<Shop> {
+            hit(ctx);
+            Some(Shop(id))
+        }
+        #[graphql(complexity = "first.clamp(0, 9) as usize * child_complexity + 1")]
+        async fn shops(&self, ctx: &Context<'_>, #[graphql(default = 2)] first: i32) -> Vec<Shop> {
+            hit(ctx);
+            let _ = first;
+            vec![Shop(1)]
+        }
+        #[graphql(complexity = "first.unwrap_or(1).clamp(0, 9) as usize * child_complexity + 2")]
+        async fn items(&self, ctx: &Context<'_>, #[graphql(default = 3)] first: Option<i32>) -> Vec<Item> {
+            hit(ctx);
+            let _ = first;
+            vec![Item(1)]
+        }
+        #[graphql(complexity = "rows.clamp(0, 4) as usize * (cols.clamp(0, 4) as usize * child_complexity + 1) + 1")]
+        async fn grid(&self, ctx: &Context<'_>, #[graphql(default = 2)] rows: i32, #[graphql(default = 2)] cols: i32) -> Vec<Vec<Item>> {
+            hit(ctx);
+            let _ = (rows, cols);
+            vec![vec![Item(1)]]
+        }
+        #[graphql(complexity = "ids.len().min(9) * child_complexity + 1")]
+        async fn by_ids(&self, ctx: &Context<'_>, #[graphql(default)] ids: Vec<i32>) -> Vec<Item> {
+            hit(ctx);
+            ids.iter().take(2).map(|i| Item(*i)).collect()
+        }
+        /// constant rule on a field with a selection set: the selection does not count
+        #[graphql(complexity = 4)]
+        async fn flat(&self, ctx: &Context<'_>) -> Shop {
+            hit(ctx);
+            Shop(4)
+        }
+        async fn node(&self, ctx: &Context<'_>) -> Option<Node> {
+            hit(ctx);
+            Some(Node::Shop(Shop(5)))
+        }
+        async fn nodes(&self, ctx: &Context<'_>) -> Vec<Node> {
+            hit(ctx);
+            vec![Node::Shop(Shop(5)), Node::Item(Item(6))]
+        }
+        async fn thing(&self, ctx: &Context<'_>) -> Option<Thing> {
+            hit(ctx);
+            Some(Thing::Shop(Shop(8)))
+        }
+        #[graphql(complexity = 0)]
+        async fn version(&self, ctx: &Context<'_>) -> String {
+            hit(ctx);
+            "1".into()
+        }
+        #[graphql(complexity = 7)]
+        async fn heavy(&self, ctx: &Context<'_>) -> i32 {
+            hit(ctx);
+            7
+        }
+        async fn n(&self, ctx: &Context<'_>) -> i32 {
+            hit(ctx);
+            1
+        }
+    }
+
+    pub type KSchema = Schema<Query, EmptyMutation, EmptySubscription>;
+    pub type KBuilder = SchemaBuilder<Query, EmptyMutation, EmptySubscription>;
+
+    pub fn build_k(configure: impl FnOnce(KBuilder) -> KBuilder) -> KSchema {
+        configure(Schema::build(Query, EmptyMutation, EmptySubscription).directive(noop).directive(mark)).finish()
+    }
+
+    pub struct NoOp;
+    impl CustomDirective for NoOp {}
+
+    /// repeatable no-op field directive
+    #[Directive(location = "Field", repeatable)]
+    pub fn noop() -> impl CustomDirective {
+        NoOp
+    }
+    /// non-repeatable no-op field directive with an argument
+    #[Directive(location = "Field")]
+    pub fn mark(n: Option<i32>) -> impl CustomDirective {
+        let _ = n;
+        NoOp
+    }
+}
+
+fn int(args: &IndexMap<String, CV>, name: &str) -> Option<i64> {
+    match args.get(name) {
+        Some(CV::Int(i)) => Some(*i),
+        _ => None,
+    }
+}
+
+/// The complexity rules of K, transcribed by hand from the attributes above (the hand-written half of the mirror).
+pub fn k_rules(ty: &str, field: &str, args: &IndexMap<String, CV>, child: u64) -> Option<u64> {
+    let clamp = |v: i64, hi: i64| v.clamp(0, hi) as u64;
+    Some(match (ty, field) {
+        ("Shop", "items") | ("Query", "shops") => clamp(int(args, "first")?, 9) * child + 1,
+        ("Shop", "cost") => 3,
+        ("Shop", "flag") => match args.get("on") {
+            Some(CV::Bool(true)) => 5,
+            _ => 1,
+        },
+        ("Item", "price") => match args.get("size") {
+            Some(CV::Enum(e)) if e == "MEDIUM" => 2,
+            Some(CV::Enum(e)) if e == "LARGE" => 4,
+            _ => 1,
+        },
+        ("Item", "parts") => (clamp(int(args, "first")?, 9) + 1) * child,
+        ("Item", "weight") => 2,
+        ("Item", "twin") => child,
+        // `first: Int = 3`: explicit null reaches the rule as None -> 1
+        ("Query", "items") => clamp(int(args, "first").unwrap_or(1), 9) * child + 2,
+        ("Query", "grid") => clamp(int(args, "rows")?, 4) * (clamp(int(args, "cols")?, 4) * child + 1) + 1,
+        ("Query", "byIds") => match args.get("ids") {
+            Some(CV::List(l)) => (l.len() as u64).min(9) * child + 1,
+            _ => return None,
+        },
+        ("Query", "flat") => 4,
+        ("Query", "version") => 0,
+        ("Query", "heavy") => 7,
+        _ => return None,
+    })
+}
+
+#[derive(Clone, Copy, Debug, PartialEq)]
+pub enum Lim {
+    Depth(usize),
+    Complexity(usize),
+    Nesting(usize),
+    Directives(usize),
+}
+
+pub struct Outcome {
+    pub errors: Vec<String>,
+    /// resolvers that started
+    pub started: usize,
+}
+impl Outcome {
+    /// "rejected before any resolver runs"
+    fn rejected(&self) -> bool {
+        !self.errors.is_empty() && self.started == 0
+    }
+}
+
+fn outcome(resp: &Response, started: usize) -> Outcome {
+    Outcome { errors: resp.errors.iter().map(|e| e.message.clone()).collect(), started }
+}
+
+#[derive(Clone, Copy, PartialEq)]
+enum Which {
+    Depth,
+    Complexity,
+    Nesting,
+    Directives,
+}
+
+/// The limits to try for one measure and what the statement demands for each: (limit, must be rejected).
+/// Between `lo` and `hi` (only different when `__typename` occurs) the answer is not specified.
+fn plan(which: Which, m: &Measures) -> Vec<(Lim, bool)> {
+    let (lo, hi) = match which {
+        Which::Depth => (m.depth.lo, m.depth.hi),
+        Which::Complexity => (m.complexity.lo, m.complexity.hi),
+        Which::Nesting => (m.nesting, m.nesting),
+        Which::Directives => (m.field_directives, m.field_directives),
+    };
+    let mk = |v: u64| match which {
+        Which::Depth => Lim::Depth(v as usize),
+        Which::Complexity => Lim::Complexity(v as usize),
+        Which::Nesting => Lim::Nesting(v as usize),
+        Which::Directives => Lim::Directives(v as usize),
+    };
+    let mut out = vec![];
+    if lo >= 1 {
+        out.push((mk(lo - 1), true));
+    }
+    out.push((mk(hi), false));
+    out.push((mk(hi + 1), false));
+    out
+}
+
+/// Run the plan; Err = first deviation from the statement.
+fn enforce(which: &[Which], m: &Measures, safety_only: bool, run: &dyn Fn(Lim) -> Outcome) -> Result<u32, String> {
+    let mut runs = 0;
+    for w in which {
+        for (lim, must_reject) in plan(*w, m) {
+            if safety_only && !must_reject {
+                continue;
+            }
+            let o = run(lim);
+            runs += 1;
+            if must_reject && !o.rejected() {
+                return Err(format!("limit {:?} is below the measure but the request was not rejected before execution: {} resolver(s) started, errors {:?}", lim, o.started, o.errors));
+            }
+            if !must_reject && o.rejected() {
+                return Err(format!("limit {:?} is not exceeded but the request was rejected: {:?}", lim, o.errors));
+            }
+        }
+    }
+    Ok(runs)
+}
+
+fn show_m(m: &Measures) -> String {
+    let iv = |i: &Interval| if i.lo == i.hi { i.lo.to_string() } else { format!("{}..={}", i.lo, i.hi) };
+    format!("depth={} complexity={} nesting={} field-directives={}", iv(&m.depth), iv(&m.complexity), m.nesting, m.field_directives)
+}
+
+fn classify(c: Case, m: &Measures, st: &DocStats) -> Case {
+    c.nontrivial(m.depth_via_fragment || m.custom_rules > 0)
+        .class_if(m.depth_via_named, "deepest-field-in-named-fragment")
+        .class_if(m.depth_via_fragment && !m.depth_via_named, "deepest-field-in-inline-fragment")
+        .class_if(m.custom_rules > 0, "custom-rule")
+        .class_if(m.custom_rules_in_named > 0, "custom-rule-in-named-fragment")
+        .class_if(m.custom_rules_var_arg > 0, "custom-rule-variable-argument")
+        .class_if(m.custom_rules_default_arg > 0, "custom-rule-default-argument")
+        .class_if(m.nesting_via_named, "nesting-through-named-fragment")
+        .class_if(m.field_directives_in_named, "most-directives-in-named-fragment")
+        .class_if(m.field_directives >= 3, "field-directives>=3")
+        .class_if(st.vars_omitted > 0, "omitted-variable")
+        .class_if(st.repeated_keys > 0, "repeated-key")
+}
+
+fn to_variables(vars: &IndexMap<String, CV>) -> Variables {
+    Variables::from_json(vars_json(vars))
+}
+
+/// documents for the depth / complexity / nesting streams
+fn doc_cfg(ctx: &Ctx, ops: Vec<OpKind>) -> TypedCfg {
+    TypedCfg {
+        typename: false,
+        // the statement is silent on whether selections removed by @skip/@include count: none are generated
+        directives: false,
+        omitted_var_with_arg_default: !ctx.open("C10-F1"),
+        ops,
+        ..TypedCfg::default()
+    }
+}
+
+/// Add directives to fields (and to fragments, where they must not count): `vocab` = (name, repeatable, has arg).
+fn decorate(doc: &mut Doc, s: &mut dyn Src, custom: bool) {
+    fn dirs(s: &mut dyn Src, custom: bool, on_field: bool) -> Vec<Directive> {
+        let mut out: Vec<Directive> = vec![];
+        let k = s.weighted(&[6, 3, 2, 1, 1, 1]);
+        for _ in 0..k {
+            let pick = if custom && on_field { s.choose(4) } else { s.choose(2) };
+            let d = match pick {
+                0 => Directive::new("skip", vec![("if", Val::Bool(false))]),
+                1 => Directive::new("include", vec![("if", Val::Bool(true))]),
+                2 => Directive::new("noop", vec![]),
+                _ => {
+                    if s.bool() {
+                        Directive::new("mark", vec![("n", Val::Int(s.choose(5).to_string()))])
+                    } else {
+                        Directive::new("mark", vec![])
+                    }
+                }
+            };
+            // only @noop is repeatable
+            if d.name.s != "noop" && out.iter().any(|x| x.name.s == d.name.s) {
+                if custom && on_field {
+                    out.push(Directive::new("noop", vec![]));
+                }
+                continue;
+            }
+            out.push(d);
+        }
+        out
+    }
+    fn sel(set: &mut SelSet, s: &mut dyn Src, custom: bool) {
+        for it in &mut set.items {
+            match it {
+                Selection::Field(f) => {
+                    f.directives = dirs(s, custom, true);
+                    sel(&mut f.sel, s, custom);
+                }
+                Selection::Inline(i) => {
+                    i.directives = dirs(s, custom, false);
+                    sel(&mut i.sel, s, custom);
+                }
+                Selection::Spread(sp) => sp.directives = dirs(s, custom, false),
+            }
+        }
+    }
+    for d in &mut doc.defs {
+        match d {
+            Def::Op(o) => sel(&mut o.sel, s, custom),
+            Def::Frag(f) => sel(&mut f.sel, s, custom),
+        }
+    }
+}
+
+/// Two single-operation documents as one document with operations A and B (fragments of the second renamed).
+fn merge(a: &TypedDoc, b: &TypedDoc) -> Doc {
+    fn rename(set: &mut SelSet) {
+        for it in &mut set.items {
+            match it {
+                Selection::Field(f) => rename(&mut f.sel),
+                Selection::Inline(i) => rename(&mut i.sel),
+                Selection::Spread(sp) => sp.name.s.push('b'),
+            }
+        }
+    }
+    let mut out = Doc::default();
+    for (i, src) in [a, b].into_iter().enumerate() {
+        for d in &src.doc.defs {
+            let mut d = d.clone();
+            match &mut d {
+                Def::Op(o) => {
+                    o.explicit = true;
+                    o.name = Some(Name::new(if i == 0 { "A" } else { "B" }));
+                    if i == 1 {
+                        rename(&mut o.sel);
+                    }
+                }
+                Def::Frag(f) => {
+                    if i == 1 {
+                        f.name.s.push('b');
+                        rename(&mut f.sel);
+                    }
+                }
+            }
+            out.defs.push(d);
+        }
+    }
+    out
+}
+
+/// Remove the generator's `__typename` fallbacks (and whatever becomes empty or unused by that), so that the
+/// measures are exact. false = nothing is left of the operation.
+fn strip_typename(td: &mut TypedDoc) -> bool {
+    fn prune(set: &mut SelSet, dead: &[String]) {
+        set.items.retain_mut(|it| match it {
+            Selection::Field(f) => {
+                if f.name.s == "__typename" {
+                    return false;
+                }
+                let composite = !f.sel.items.is_empty();
+                prune(&mut f.sel, dead);
+                !composite || !f.sel.items.is_empty()
+            }
+            Selection::Inline(i) => {
+                prune(&mut i.sel, dead);
+                !i.sel.items.is_empty()
+            }
+            Selection::Spread(sp) => !dead.contains(&sp.name.s),
+        });
+    }
+    fn spreads(set: &SelSet, out: &mut Vec<String>) {
+        for it in &set.items {
+            match it {
+                Selection::Field(f) => spreads(&f.sel, out),
+                Selection::Inline(i) => spreads(&i.sel, out),
+                Selection::Spread(sp) => out.push(sp.name.s.clone()),
+            }
+        }
+    }
+    let mut dead: Vec<String> = vec![];
+    loop {
+        let before = dead.len();
+        for d in &mut td.doc.defs {
+            match d {
+                Def::Op(o) => prune(&mut o.sel, &dead),
+                Def::Frag(f) => {
+                    prune(&mut f.sel, &dead);
+                    if f.sel.items.is_empty() && !dead.contains(&f.name.s) {
+                        dead.push(f.name.s.clone());
+                    }
+                }
+            }
+        }
+        if dead.len() == before {
+            break;
+        }
+    }
+    // keep the fragments that are still reachable from the operation
+    let mut reach: Vec<String> = vec![];
+    let mut todo: Vec<String> = vec![];
+    if let Some(o) = td.doc.ops().next() {
+        if o.sel.items.is_empty() {
+            return false;
+        }
+        spreads(&o.sel, &mut todo);
+    }
+    while let Some(n) = todo.pop() {
+        if !reach.contains(&n) {
+            if let Some(f) = td.doc.frag(&n) {
+                spreads(&f.sel, &mut todo);
+            }
+            reach.push(n);
+        }
+    }
+    td.doc.defs.retain(|d| match d {
+        Def::Op(_) => true,
+        Def::Frag(f) => reach.contains(&f.name.s),
+    });
+    // and the variables that are still used
+    let text = format!("{:?}", td.doc.defs.iter().map(|d| match d { Def::Op(o) => &o.sel, Def::Frag(f) => &f.sel }).collect::<Vec<_>>());
+    let vars = &mut td.vars;
+    for d in &mut td.doc.defs {
+        if let Def::Op(o) = d {
+            o.vars.retain(|v| {
+                let used = text.contains(&format!("Var(\"{}\")", v.name.s));
+                if !used {
+                    vars.shift_remove(&v.name.s);
+                }
+                used
+            });
+        }
+    }
+    true
+}
+
+struct Prepared {
+    text: String,
+    vars: IndexMap<String, CV>,
+    op_name: Option<String>,
+    m: Measures,
+}
+
+/// print, coerce the variables of the executed operation, measure it
+fn prepare(sch: &Sch, doc: &mut Doc, vars: &IndexMap<String, CV>, op_name: Option<&str>, rules: Rules<'_>) -> Result<Prepared, String> {
+    let text = print_plain(doc);
+    let op = vgql::refexec::select_operation(doc, op_name).map_err(|e| format!("{:?}", e))?;
+    let coerced = coerce_variables(sch, op, vars).map_err(|e| format!("variables: {}", e.msg))?;
+    let m = measure(sch, doc, op, &coerced, rules).map_err(|e| format!("arguments: {}", e.msg))?;
+    Ok(Prepared { text, vars: vars.clone(), op_name: op_name.map(|s| s.to_string()), m })
+}
+
+fn run_k(p: &Prepared, lim: Lim) -> Outcome {
+    let schema = k::build_k(|b| match lim {
+        Lim::Depth(n) => b.limit_depth(n),
+        Lim::Complexity(n) => b.limit_complexity(n),
+        Lim::Nesting(n) => b.limit_recursive_depth(n),
+        Lim::Directives(n) => b.limit_directives(n),
+    });
+    let calls = Arc::new(AtomicUsize::new(0));
+    let mut req = async_graphql::Request::new(&p.text).variables(to_variables(&p.vars)).data(k::Calls(calls.clone()));
+    if let Some(n) = &p.op_name {
+        req = req.operation_name(n);
+    }
+    let resp = vcore::det::block_on(schema.execute(req));
+    outcome(&resp, calls.load(Ordering::Relaxed))
+}
+
+fn run_z(p: &Prepared, world: &World, lim: Lim) -> Outcome {
+    let schema = build_z(|b| {
+        let b = b.directive(k::noop).directive(k::mark);
+        match lim {
+            Lim::Depth(n) => b.limit_depth(n),
+            Lim::Complexity(n) => b.limit_complexity(n),
+            Lim::Nesting(n) => b.limit_recursive_depth(n),
+            Lim::Directives(n) => b.limit_directives(n),
+        }
+    });
+    let rt = Rt::new(world.clone());
+    let resp = vcore::det::block_on(schema.execute(request(&p.text, &p.vars, p.op_name.as_deref()).data(rt.clone())));
+    let started = rt.take_log().iter().filter(|e| matches!(e, vschemas::rt::Ev::Start { .. })).count();
+    outcome(&resp, started)
+}
+
+fn run_dyn(p: &Prepared, sch: &Sch, world: &World, lim: Lim) -> Result<Outcome, String> {
+    let rt = Rt::new(world.clone());
+    let schema = build_dynamic(sch, &rt, |b| match lim {
+        Lim::Depth(n) => b.limit_depth(n),
+        Lim::Complexity(n) => b.limit_complexity(n),
+        Lim::Nesting(n) => b.limit_recursive_depth(n),
+        Lim::Directives(n) => b.limit_directives(n),
+    })
+    .map_err(|e| format!("HARNESS: generated schema does not build: {}", e))?;
+    let resp = vcore::det::block_on(schema.execute(request(&p.text, &p.vars, p.op_name.as_deref())));
+    let started = rt.take_log().iter().filter(|e| matches!(e, vschemas::rt::Ev::Start { .. })).count();
+    Ok(outcome(&resp, started))
+}
+
+const ALL3: [Which; 3] = [Which::Depth, Which::Complexity, Which::Nesting];
+
+fn verdict(rendered: String, r: Result<u32, String>) -> Case {
+    match r {
+        Ok(_) => Case::pass(rendered),
+        Err(why) => Case::fail(rendered, why),
+    }
+}
+
+/// C10-F1: a complexity rule reads an argument bound to a variable that the request omits and that has no default
+/// of its own: instead of the argument's default value the rule gets an error, and the request is rejected under
+/// every complexity limit (and without one).
+fn f1_applies(doc: &Doc, op: &OpDef, sch: &Sch, vars: &IndexMap<String, CV>, rules: Rules<'_>) -> bool {
+    fn go(doc: &Doc, sch: &Sch, set: &SelSet, parent: &str, omitted: &[String], rules: Rules<'_>, depth: usize) -> bool {
+        set.items.iter().any(|it| match it {
+            Selection::Field(f) => {
+                let fd = match sch.field(parent, &f.name.s) {
+                    Some(fd) => fd,
+                    None => return false,
+                };
+                let declares_rule = rules(parent, &f.name.s, &vgql::coerce::coerce_arguments(sch, fd, &[], &IndexMap::new()).unwrap_or_default(), 0).is_some();
+                (declares_rule && f.args.iter().any(|(_, v)| matches!(&v.v, Val::Var(n) if omitted.contains(n)))) || go(doc, sch, &f.sel, fd.ty.base(), omitted, rules, depth)
+            }
+            Selection::Inline(i) => go(doc, sch, &i.sel, i.cond.as_ref().map(|c| c.s.as_str()).unwrap_or(parent), omitted, rules, depth),
+            Selection::Spread(sp) => depth < 16 && doc.frag(&sp.name.s).map_or(false, |fr| go(doc, sch, &fr.sel, &fr.cond.s, omitted, rules, depth + 1)),
+        })
+    }
+    let omitted: Vec<String> = op.vars.iter().filter(|v| v.default.is_none() && !vars.contains_key(&v.name.s)).map(|v| v.name.s.clone()).collect();
+    !omitted.is_empty() && go(doc, sch, &op.sel, sch.root(op.kind).unwrap_or(""), &omitted, rules, 0)
+}
+
+pub fn run(ctx: &mut Ctx) {
+    ctx.rule = "valid typed documents (aliases, repeated keys, inline and named fragments on every applicable condition, arguments as literals / variables / defaults) on \
+                (a) derive-built schema K whose fields declare complexity rules over arguments and child_complexity, (b) static schema Z, (c) random dynamic schemas; per \
+                document the reference depth / complexity / selection nesting / directives-per-field are computed and the schema is rebuilt with ONE limit at measure-1, measure, \
+                measure+1; the request must be rejected before any resolver starts exactly when measure > limit. Non-trivial = a deepest field lies inside a fragment, or a \
+                declared complexity rule contributes; distinct by rendered (schema, document, variables)"
+        .into();
+    ctx.assume("`__typename` is not generated (whether it counts as a field is not specified): the generator's `__typename` fallbacks (a union position at the bottom of the depth budget) are removed from the documents together with whatever they leave empty or unused; should one remain, depth and complexity are an interval (it counts / it does not) and only limits outside the interval are asserted");
+    ctx.assume("selections removed by @skip/@include: the statement does not say whether they count, so none are generated (the directive streams only use @skip(if:false) / @include(if:true) and no-op custom directives, which remove nothing)");
+    ctx.assume("selection nesting: the operation's own selection set is level 0; the selection set of a field, an inline fragment and a fragment spread each open one more level ('fragments as if written inline': a spread counts like the inline fragment it stands for). The statement fixes 'exactly when it exceeds' but not the origin of counting; the origin is taken from the documented default (`limit_recursive_depth`, 32)");
+    ctx.assume("directives per field: directives on inline fragments and fragment spreads are not directives on a field and do not count");
+    ctx.assume("a field selected on an interface type declares no rule of its own (interfaces cannot declare rules); schema K gives no rule to any implementation of an interface field, so the default rule applies under every reading");
+    ctx.assume("multi-operation documents: only the safety direction is asserted (rejected when the executed operation alone exceeds the limit)");
+    ctx.assume("'rejected before any resolver runs' is observed as: the response carries errors and no resolver of the harness started; every limit is configured alone, the others keep their defaults (recursive depth 32)");
+
+    let kschema = k::build_k(|b| b);
+    let mut ksch = vgql::sch::from_sdl_text(&kschema.sdl()).expect("K's SDL must be readable by the reference parser");
+    for b in vgql::sch::BUILTIN_SCALARS {
+        ksch.types.shift_remove(b);
+    }
+    let zschema = build_z(|b| b);
+    let zsch = z_sch(&zschema);
+
+    // regression witnesses: complexity rule reached through a named fragment spread at an interface / union position
+    // (the parent type inside the fragment is the fragment's type condition: /repo 300d531)
+    for (text, want) in [
+        ("{ node { ...F } } fragment F on Shop { items(first: 3) { id } }", 5u64),
+        ("{ thing { ...F } } fragment F on Item { parts(first: 2) { weight twin { id } } }", 10),
+        ("query($n: Int! = 4) { shops(first: $n) { ...F } } fragment F on Node { ... on Shop { cost flag(on: true) } }", 33),
+    ] {
+        let mut doc = vgql::refparse::parse_executable(text, &vgql::refparse::Opts::default()).expect("witness parses");
+        let c = match prepare(&ksch, &mut doc, &IndexMap::new(), None, &k_rules) {
+            Err(e) => Case::fail(text, format!("HARNESS: {}", e)),
+            Ok(p) if p.m.complexity.lo != want => Case::fail(text, format!("HARNESS: reference complexity {} differs from the hand-computed {}", p.m.complexity.lo, want)),
+            Ok(p) => verdict(format!("witness: {} [{}]", text, show_m(&p.m)), enforce(&[Which::Complexity, Which::Depth], &p.m, false, &|l| run_k(&p, l))).nontrivial(true).class("custom-rule-in-named-fragment"),
+        };
+        if ctx.check_case("witness-fragment-rule", c, serde_json::json!({"query": text})) {
+            return;
+        }
+    }
+
+    let n = ctx.tier.pick(2_500, 75_000);
+    let f1 = ctx.open("C10-F1");
+    if f1 {
+        ctx.excluded("C10-F1");
+    }
+
+    // (a) K: custom rules
+    let cfg_k = doc_cfg(ctx, vec![OpKind::Query]);
+    ctx.stream("static-rules", n, 600, |s| {
+        let mut td = gen_typed_doc(&ksch, s, &cfg_k);
+        if !strip_typename(&mut td) {
+            return Case::discard("nothing but __typename");
+        }
+        let p = match prepare(&ksch, &mut td.doc, &td.vars, td.op_name.as_deref(), &k_rules) {
+            Ok(p) => p,
+            Err(e) => return Case::discard(format!("not measurable: {}", e.split(':').next().unwrap_or(""))),
+        };
+        let rendered = format!("schema K\nquery: {}\nvariables: {}\nreference: {}", p.text, vars_json(&p.vars), show_m(&p.m));
+        classify(verdict(rendered, enforce(&ALL3, &p.m, false, &|l| run_k(&p, l))), &p.m, &td.stats)
+    });
+    if f1 {
+        let mut pcfg = cfg_k.clone();
+        pcfg.omitted_var_with_arg_default = true;
+        ctx.stream("probe-omitted-variable-in-rule", n / 4, 600, |s| {
+            let mut td = gen_typed_doc(&ksch, s, &pcfg);
+            if !strip_typename(&mut td) {
+                return Case::discard("nothing but __typename");
+            }
+            let p = match prepare(&ksch, &mut td.doc, &td.vars, td.op_name.as_deref(), &k_rules) {
+                Ok(p) => p,
+                Err(e) => return Case::discard(format!("not measurable: {}", e.split(':').next().unwrap_or(""))),
+            };
+            let rendered = format!("schema K\nquery: {}\nvariables: {}\nreference: {}", p.text, vars_json(&p.vars), show_m(&p.m));
+            let op = td.doc.ops().next().unwrap();
+            let applies = f1_applies(&td.doc, op, &ksch, &td.vars, &k_rules);
+            let c = match enforce(&ALL3, &p.m, false, &|l| run_k(&p, l)) {
+                Ok(_) => Case::pass(rendered),
+                Err(why) => {
+                    // the quirk: rejected under every limit, with the rule's error
+                    let always = [Lim::Complexity(usize::MAX), Lim::Depth(usize::MAX)].iter().all(|l| {
+                        let o = run_k(&p, *l);
+                        o.rejected() && o.errors.iter().any(|e| e.contains("is not defined"))
+                    });
+                    if applies && always {
+                        Case::known(rendered, vec!["C10-F1".into()])
+                    } else {
+                        Case::fail(rendered, why)
+                    }
+                }
+            };
+            classify(c, &p.m, &td.stats).class_if(applies, "rule-argument-bound-to-omitted-variable")
+        });
+    }
+
+    // (b) Z
+    let cfg_z = doc_cfg(ctx, vec![OpKind::Query, OpKind::Query, OpKind::Mutation]);
+    ctx.stream("static-z", n, 700, |s| {
+        let world = gen_world(&zsch, s, &WorldCfg::default());
+        let mut td = gen_typed_doc(&zsch, s, &cfg_z);
+        if !strip_typename(&mut td) {
+            return Case::discard("nothing but __typename");
+        }
+        let p = match prepare(&zsch, &mut td.doc, &td.vars, td.op_name.as_deref(), &no_rules) {
+            Ok(p) => p,
+            Err(e) => return Case::discard(format!("not measurable: {}", e.split(':').next().unwrap_or(""))),
+        };
+        let rendered = format!("schema Z\nquery: {}\nvariables: {}\nreference: {}", p.text, vars_json(&p.vars), show_m(&p.m));
+        classify(verdict(rendered, enforce(&ALL3, &p.m, false, &|l| run_z(&p, &world, l))), &p.m, &td.stats)
+    });
+
+    // (c) dynamic
+    ctx.stream("dynamic", n, 700, |s| {
+        let sch = gen_sch(s, &SchCfg::default());
+        let world = gen_world(&sch, s, &WorldCfg { null_composite_items: false, ..WorldCfg::default() });
+        let mut td = gen_typed_doc(&sch, s, &cfg_z);
+        if !strip_typename(&mut td) {
+            return Case::discard("nothing but __typename");
+        }
+        let p = match prepare(&sch, &mut td.doc, &td.vars, td.op_name.as_deref(), &no_rules) {
+            Ok(p) => p,
+            Err(e) => return Case::discard(format!("not measurable: {}", e.split(':').next().unwrap_or(""))),
+        };
+        let rendered = format!("schema: {}\nquery: {}\nvariables: {}\nreference: {}", show_sch(&sch), p.text, vars_json(&p.vars), show_m(&p.m));
+        let mut build_err = None;
+        let r = enforce(&ALL3, &p.m, false, &|l| match run_dyn(&p, &sch, &world, l) {
+            Ok(o) => o,
+            Err(e) => Outcome { errors: vec![e], started: usize::MAX },
+        });
+        if let Err(e) = &r {
+            if e.contains("HARNESS") {
+                build_err = Some(e.clone());
+            }
+        }
+        match build_err {
+            Some(e) => Case::fail(rendered, e),
+            None => classify(verdict(rendered, r), &p.m, &td.stats).class("dynamic"),
+        }
+    });
+
+    // directives per field
+    ctx.stream("directives-static", n, 700, |s| {
+        let use_k = s.bool();
+        let (sch, rules): (&Sch, Rules<'_>) = if use_k { (&ksch, &k_rules) } else { (&zsch, &no_rules) };
+        let world = if use_k { World::default() } else { gen_world(&zsch, s, &WorldCfg::default()) };
+        let mut td = gen_typed_doc(sch, s, &cfg_k);
+        if !strip_typename(&mut td) {
+            return Case::discard("nothing but __typename");
+        }
+        decorate(&mut td.doc, s, true);
+        let p = match prepare(sch, &mut td.doc, &td.vars, td.op_name.as_deref(), rules) {
+            Ok(p) => p,
+            Err(e) => return Case::discard(format!("not measurable: {}", e.split(':').next().unwrap_or(""))),
+        };
+        let rendered = format!("schema {}\nquery: {}\nvariables: {}\nreference: {}", if use_k { "K" } else { "Z" }, p.text, vars_json(&p.vars), show_m(&p.m));
+        let r = enforce(&[Which::Directives], &p.m, false, &|l| if use_k { run_k(&p, l) } else { run_z(&p, &world, l) });
+        classify(verdict(rendered, r), &p.m, &td.stats).nontrivial(p.m.field_directives > 0).class("directives")
+    });
+    ctx.stream("directives-dynamic", n / 2, 700, |s| {
+        let sch = gen_sch(s, &SchCfg::default());
+        let world = gen_world(&sch, s, &WorldCfg { null_composite_items: false, ..WorldCfg::default() });
+        let mut td = gen_typed_doc(&sch, s, &cfg_k);
+        if !strip_typename(&mut td) {
+            return Case::discard("nothing but __typename");
+        }
+        decorate(&mut td.doc, s, false);
+        let p = match prepare(&sch, &mut td.doc, &td.vars, td.op_name.as_deref(), &no_rules) {
+            Ok(p) => p,
+            Err(e) => return Case::discard(format!("not measurable: {}", e.split(':').next().unwrap_or(""))),
+        };
+        let rendered = format!("schema: {}\nquery: {}\nvariables: {}\nreference: {}", show_sch(&sch), p.text, vars_json(&p.vars), show_m(&p.m));
+        let r = enforce(&[Which::Directives], &p.m, false, &|l| match run_dyn(&p, &sch, &world, l) {
+            Ok(o) => o,
+            Err(e) => Outcome { errors: vec![e], started: usize::MAX },
+        });
+        classify(verdict(rendered, r), &p.m, &td.stats).nontrivial(p.m.field_directives > 0).class("directives").class("dynamic")
+    });
+
+    // several operations in one document: safety direction only
+    ctx.stream("multi-operation", n / 2, 1200, |s| {
+        let use_k = s.bool();
+        let (sch, rules): (&Sch, Rules<'_>) = if use_k { (&ksch, &k_rules) } else { (&zsch, &no_rules) };
+        let world = if use_k { World::default() } else { gen_world(&zsch, s, &WorldCfg::default()) };
+        let mut a = gen_typed_doc(sch, s, &cfg_k);
+        let mut b = gen_typed_doc(sch, s, &cfg_k);
+        if !strip_typename(&mut a) || !strip_typename(&mut b) {
+            return Case::discard("nothing but __typename");
+        }
+        let mut doc = merge(&a, &b);
+        let exec_b = s.bool();
+        let (vars, name) = if exec_b { (&b.vars, "B") } else { (&a.vars, "A") };
+        let p = match prepare(sch, &mut doc, vars, Some(name), rules) {
+            Ok(p) => p,
+            Err(e) => return Case::discard(format!("not measurable: {}", e.split(':').next().unwrap_or(""))),
+        };
+        let rendered = format!("schema {}\nquery: {}\noperationName: {}\nvariables: {}\nreference (operation {} alone): {}", if use_k { "K" } else { "Z" }, p.text, name, vars_json(&p.vars), name, show_m(&p.m));
+        let r = enforce(&ALL3, &p.m, true, &|l| if use_k { run_k(&p, l) } else { run_z(&p, &world, l) });
+        let st = if exec_b { &b.stats } else { &a.stats };
+        classify(verdict(rendered, r), &p.m, st).class("multi-operation")
+    });
+
+    ctx.floor("custom-rule", 300);
+    ctx.floor("custom-rule-in-named-fragment", 30);
+    ctx.floor("custom-rule-variable-argument", 30);
+    ctx.floor("custom-rule-default-argument", 30);
+    ctx.floor("deepest-field-in-named-fragment", 100);
+    ctx.floor("deepest-field-in-inline-fragment", 100);
+    ctx.floor("field-directives>=3", 50);
+    ctx.floor("multi-operation", 100);
+    ctx.floor("dynamic", 500);
 }
